@@ -419,16 +419,14 @@ fn c11_wrath_read_client_facade() {
 
 /// C11: client reads a 4- or 5-byte server header. `mode` 1: the reader fragments and interrupts but never
 /// fails; `mode` 2: the reader fails (error of any kind, or end of file) after exactly `fail_at` bytes.
-fn c11_wrath_read_server_impl(facade: bool, mode: u8) -> (bool, usize, bool) {
+fn c11_wrath_read_server_impl(facade: bool, simple_lo: usize, simple_hi: usize) -> (bool, usize, bool) {
     let cd0 = dh::any_client_dec_at(253);
     let ce0 = eh::any_client_enc_at(252);
     let mut rd = AnyReader::new();
-    rd.mode = mode;
+    // arbitrary behaviour in one of the two read_exact phases, deliver-or-fail in the other
+    rd.simple_lo = simple_lo;
+    rd.simple_hi = simple_hi;
     rd.max_calls = 7;
-    if mode == 2 {
-        rd.fail_at = kani::any();
-        kani::assume(rd.fail_at <= 4);
-    }
     let w = [rd.stream[0], rd.stream[1], rd.stream[2], rd.stream[3], rd.stream[4]];
     // reference: the two-step calls on the delivered bytes
     let mut ref4 = cd0.clone();
@@ -477,24 +475,27 @@ fn c11_wrath_read_server_impl(facade: bool, mode: u8) -> (bool, usize, bool) {
 #[kani::unwind(42)]
 #[kani::stub(crate::wrath_header::inner_crypto::InnerCrypto::apply, ich::pad_apply_inner)]
 fn c11_wrath_read_server() {
-    let (ok, pos, large) = c11_wrath_read_server_impl(false, 1);
-    kani::cover!(ok && pos == 5 && large, "large header delivered in fragments");
-    kani::cover!(ok && pos == 4 && !large, "small header delivered in fragments");
+    // first four bytes: arbitrary fragmentation / interruption / failure; fifth byte: delivered or failed
+    let (ok, pos, large) = c11_wrath_read_server_impl(false, 4, 8);
+    kani::cover!(ok && pos == 5 && large, "large header complete");
+    kani::cover!(!ok && pos == 3, "failure after three bytes");
+    kani::cover!(!ok && pos == 4 && large, "failure at the fifth byte");
 }
 #[kani::proof]
 #[kani::unwind(42)]
 #[kani::stub(crate::wrath_header::inner_crypto::InnerCrypto::apply, ich::pad_apply_inner)]
-fn c11_wrath_read_server_fail() {
-    let (ok, pos, large) = c11_wrath_read_server_impl(false, 2);
+fn c11_wrath_read_server_fifth() {
+    // first four bytes: delivered at once or failed; fifth byte: arbitrary interruption / failure
+    let (ok, pos, large) = c11_wrath_read_server_impl(false, 0, 4);
+    kani::cover!(ok && pos == 5 && large, "large header complete after interruptions");
     kani::cover!(!ok && pos == 4 && large, "failure at the fifth byte");
-    kani::cover!(!ok && pos == 3, "failure after three bytes");
-    kani::cover!(ok && pos == 4 && !large, "small header complete before the failure point");
+    kani::cover!(ok && pos == 4 && !large, "small header");
 }
 #[kani::proof]
 #[kani::unwind(42)]
 #[kani::stub(crate::wrath_header::inner_crypto::InnerCrypto::apply, ich::pad_apply_inner)]
 fn c11_wrath_read_server_facade() {
-    let (ok, pos, large) = c11_wrath_read_server_impl(true, 2);
+    let (ok, pos, large) = c11_wrath_read_server_impl(true, 4, 8);
     kani::cover!(!ok && pos == 4 && large, "failure at the fifth byte");
 }
 /// C11: Wrath write wrappers with a faulty writer.
